@@ -95,7 +95,7 @@ func factsA() map[string]string {
 // ---------------------------------------------------------------- generator (type-directed over the metadata)
 
 var intMenu = []string{"0", "1", "-1", "2", "10", "100", "-5", "2147483648", "4294967295", "4294967296", "4294967297",
-	"-4294967296", "8589934592", "9223372036854775807", "-9223372036854775808", "9223372036854775808", "18446744073709551615"}
+	"-4294967296", "8589934592", "9223372036854775807", "-9223372036854775808"}
 var fltMenu = []int{0, 500, 1000, 1001, -1, -500, 1500, 250}
 var durMenu = []int64{0, 1, 1000, 999999, 1000000, 1000001, 1000000000, 30000000000, 15000000000, 3600000000000}
 var negDurMenu = []int64{-1, -999999, -1000000, -1000000000, -300000000000}
@@ -162,13 +162,16 @@ func wrongTyped(r *kit.Rng, ty string) val {
 
 // genValue picks a value for one metadata field: mostly of the right type, from the boundary menus
 func genValue(r *kit.Rng, f *config.Field) (val, bool) {
-	if r.Chance(4) {
+	if r.Chance(2) {
 		return wrongTyped(r, f.Type), true
 	}
 	switch f.Type {
 	case "int":
-		if r.Chance(45) {
+		if r.Chance(40) {
 			return vInt(strconv.Itoa(1 + r.Intn(50))), true
+		}
+		if r.Chance(6) { // not an int64: refused by every type
+			return vInt([]string{"9223372036854775808", "18446744073709551615"}[r.Intn(2)]), true
 		}
 		return vInt(intMenu[r.Intn(len(intMenu))]), true
 	case "float":
@@ -190,7 +193,7 @@ func genValue(r *kit.Rng, f *config.Field) (val, bool) {
 		return genNames(r), true
 	case "string":
 		if len(f.Choices) > 0 {
-			if r.Chance(90) {
+			if r.Chance(96) {
 				return vStr(f.Choices[r.Intn(len(f.Choices))]), true
 			}
 			return vStr("bogus"), true
@@ -244,7 +247,7 @@ func genFields(r *kit.Rng, group string) fields {
 		}
 		present := r.Chance(45)
 		if isRequired(f) {
-			present = r.Chance(93)
+			present = r.Chance(96)
 		}
 		if !present {
 			continue
@@ -253,7 +256,7 @@ func genFields(r *kit.Rng, group string) fields {
 			out = append(out, field{f.Name, v})
 		}
 	}
-	if r.Chance(2) {
+	if r.Chance(1) {
 		out = append(out, field{"NoSuchKey", vInt("1")})
 	}
 	return out
@@ -277,7 +280,7 @@ func genCond(r *kit.Rng) node {
 		return n
 	}
 	n.f = genFields(r, "Conditions")
-	switch r.Pick(45, 35, 10, 10) {
+	switch r.Pick(48, 38, 4, 10) {
 	case 0:
 		n.f = append(fields{{"Field", vStr(nameMenu[r.Intn(len(nameMenu))])}}, n.f...)
 	case 1:
@@ -320,6 +323,8 @@ func genRaw(r *kit.Rng) *rawCfg {
 		c.hasEntry, c.group = true, dynGroups[r.Intn(len(dynGroups))]
 		if r.Chance(2) {
 			c.group = "NoSuchSampler"
+		} else if r.Chance(2) {
+			c.group = []string{"Rules", "Conditions", "Samplers"}[r.Intn(3)] // groups of the metadata that are not sampler types
 		}
 		c.n = node{shape: genShape(r, 3, 2)}
 		if c.n.shape == "obj" {
